@@ -328,7 +328,6 @@ def check_dump(spec, runner, path, o, reg, ann, k=None):
     case = dict(bintable=spec["tname"], matrix=spec["mname"], symmetric_upper=symm, args=args + ["<cool>"])
     detail = dict(bins=rows, pixels=P, bin_columns="weight=[0.5,1.5,nan,2,0.25,1,4,0.75][i%8], tag=100+7i")
     out = []
-    alone = not (o & {"balanced", "join", "annotate"})
     optsig = "+".join(f for f in FLAGS if f in o) or "none"
     try:
         res = runner.invoke(cli, args + [path])
@@ -377,7 +376,7 @@ def check_dump(spec, runner, path, o, reg, ann, k=None):
         same = all(tok_equal(gr[c], er[c]) for gr, er in zip(got_sorted, exp_sorted) for c in cidx)
         sig = f"dump:{g}"
         if g == "ids" and "one-based-ids" in o:
-            sig += ":one-based-ids" + (":without-join/balanced/annotate" if alone else "")
+            sig += ":one-based-ids"
         if g == "coords" and "one-based-starts" in o:
             sig += ":one-based-starts"
         if not same:
@@ -527,6 +526,14 @@ def layout_kind(names_in_library_order, layout):
     return "ascending-field-numbers" if nums == sorted(nums) else "non-ascending-field-numbers"
 
 
+def chunk_class(nrec, cs, max_merge):
+    """kind of chunking, for signatures: one chunk / several chunks merged in one pass / more chunks than --max-merge"""
+    if not cs or cs >= nrec:
+        return ""
+    nchunks = -(-nrec // cs)
+    return ":two-pass-merge" if nchunks > (max_merge or 200) else ":multi-chunk"
+
+
 def write_table(path, records, fields, layout, ncols, header=None):
     with open(path, "w") as f:
         if header:
@@ -564,7 +571,10 @@ def load_job(spec):
     C = f"load-{fmt}:reproduces-the-cooler"
     nrec = len(P)
     cs = spec.get("chunksize")
-    chunk = "" if not cs or cs >= nrec else ":multi-chunk" if spec.get("mergebuf") else f":multi-chunk:default-mergebuf"
+    fc = spec.get("float_count")         # None | "flag" (--count-as-float) | "field" (--field count=N:dtype=float)
+    chunk = chunk_class(nrec, cs, spec.get("max_merge"))
+    if fc:
+        kind += ":float-count"
     sig = f"{C}:{kind}{chunk}"
     out = []
     try:
@@ -590,8 +600,12 @@ def load_job(spec):
             args += ["--chunksize", str(cs)]
         if spec.get("mergebuf"):
             args += ["--mergebuf", str(spec["mergebuf"])]
+        if spec.get("max_merge"):
+            args += ["--max-merge", str(spec["max_merge"])]
+        if fc == "flag":
+            args.append("--count-as-float")
         for f in cli_fields:
-            args += ["--field", f"{f}={layout[f] + 1}"]
+            args += ["--field", f"{f}={layout[f] + 1}" + (":dtype=float" if fc == "field" and f == "count" else "")]
         case = dict(bintable=spec["tname"], matrix=spec["mname"], symmetric_upper=symm, one_based=bool(ob), layout=layout, ncols=ncols,
                     args=args + ["<bins>", "<text>", "<out>"])
         detail = dict(bins=rows, pixels=P, text_head=open(tpath).read()[:300])
@@ -602,8 +616,10 @@ def load_job(spec):
         vcols = ("count", "val") if wv else ("count",)
         with h5py.File(opath, "r") as h:
             have = sorted(h["pixels"].keys())
-        if have != sorted(("bin1_id", "bin2_id") + vcols):
-            out.append(rec(C, False, case, {"pixel columns": have}, {"pixel columns": sorted(("bin1_id", "bin2_id") + vcols)}, True, sig, detail))
+            ckind = h["pixels/count"].dtype.kind if "count" in h["pixels"] else None
+        if have != sorted(("bin1_id", "bin2_id") + vcols) or ckind != ("f" if fc else "i"):
+            out.append(rec(C, False, case, {"pixel columns": have, "count dtype kind": ckind},
+                           {"pixel columns": sorted(("bin1_id", "bin2_id") + vcols), "count dtype kind": "f" if fc else "i"}, True, sig, detail))
             return out
         got, gb, mode = read_pixels_raw(opath, vcols)
         exp = [(i, j, v) + ((val(i, j, v),) if wv else ()) for i, j, v in sorted(P)]
@@ -612,7 +628,9 @@ def load_job(spec):
         if spec.get("libref"):
             # ... and the matrix the library call produces on the same data
             ref = os.path.join(d, "ref.cool")
-            cooler.create_cooler(ref, bins_frame(rows, extra=False), pixel_frame(P), symmetric_upper=symm, ordered=True)
+            pf = pd.DataFrame(P, columns=["bin1_id", "bin2_id", "count"]) if fc else pixel_frame(P)
+            cooler.create_cooler(ref, bins_frame(rows, extra=False), pf, symmetric_upper=symm, ordered=True,
+                                 **({"dtypes": {"count": np.float64}} if fc else {}))
             m1 = cooler.Cooler(opath).matrix(balance=False)[:, :]
             m0 = cooler.Cooler(ref).matrix(balance=False)[:, :]
             out.append(rec(f"load-{fmt}:matrix==library-created", np.array_equal(m0, m1), case, m1.tolist(), m0.tolist(), nrec > 0,
@@ -630,7 +648,10 @@ def roundtrip_job(spec):
     os.makedirs(d, exist_ok=True)
     rows, P, symm, fmt, ob = spec["bins"], spec["pixels"], spec["symm"], spec["fmt"], spec["one_based"]
     C = "dump->load:reproduces-the-cooler"
-    sig = f"{C}:{fmt}:{'one-based' if ob else 'zero-based'}"
+    filled, cs = spec.get("filled"), spec.get("chunksize")
+    # filled: `dump --fill-lower` of a symmetric cooler (both triangles + diagonal in the text) -> `load --input-copy-status duplex`
+    sig = f"{C}:{fmt}:{'one-based' if ob else 'zero-based'}" + (":fill-lower->duplex" if filled else "") + \
+          chunk_class((2 * len(P) if filled else len(P)), cs, None)
     case = dict(bintable=spec["tname"], matrix=spec["mname"], symmetric_upper=symm, format=fmt, one_based=bool(ob))
     detail = dict(bins=rows, pixels=P)
     out = []
@@ -644,8 +665,13 @@ def roundtrip_job(spec):
             a.append("--join")
         if ob:
             a.append("--one-based-ids" if fmt == "coo" else "--one-based-starts")
+        if filled:
+            a.append("--fill-lower")
+        if spec.get("dump_k"):
+            a += ["-k", str(spec["dump_k"])]
         r1 = runner.invoke(cli, a + [src])
-        l = ["load", "-f", fmt] + (["--one-based"] if ob else []) + ([] if symm else ["-N"])
+        l = ["load", "-f", fmt] + (["--one-based"] if ob else []) + ([] if symm else ["-N"]) + \
+            (["--input-copy-status", "duplex"] if filled else []) + (["--chunksize", str(cs)] if cs else [])
         case["dump_args"], case["load_args"] = ["<dump>" if x == tpath else x for x in a] + ["<src>"], l + ["<bins>", "<dump>", "<out>"]
         r2 = runner.invoke(cli, l + [bpath, tpath, opath])
         if r0.exit_code or r1.exit_code or r2.exit_code:
@@ -653,7 +679,9 @@ def roundtrip_job(spec):
                            "all exit 0", True, sig, detail))
             return out
         got, gb, mode = read_pixels_raw(opath)
-        good = got == sorted(P) and gb == [tuple(r) for r in rows]
+        good = got == sorted(P) and gb == [tuple(r) for r in rows] and mode == ("symmetric-upper" if symm else "square")
+        if not good:
+            detail = dict(detail, dump_head=open(tpath).read()[:400])
         out.append(rec(C, good, case, got[:30], sorted(P)[:30], len(P) > 0, sig, detail))
     except Exception as e:
         out.append(crashed(C, case, e, sig, detail))
@@ -678,14 +706,18 @@ def pairs_job(spec):
     kind = layout_kind(fields, layout)
     cs = spec.get("chunksize")
     C = "cload-pairs:bins-as-the-model"
-    chunk = "" if not cs or cs >= len(pairs) else ":multi-chunk" if spec.get("mergebuf") else ":multi-chunk:default-mergebuf"
+    fc = spec.get("float_count")     # the value column (x.5 values) is summed into `count`: --field count=N:dtype=float
+    chunk = chunk_class(len(pairs), cs, spec.get("max_merge"))
+    if fc:
+        kind += ":float-count"
     sig = f"{C}:{kind}{chunk}"
     out = []
     try:
         bpath, tpath, opath = os.path.join(d, "bins.bed"), os.path.join(d, "p.pairs"), os.path.join(d, "out.cool")
         pd.DataFrame(rows).to_csv(bpath, sep="\t", header=False, index=False)
         off = 0 if zb else 1
-        recs = [{"chrom1": c1, "pos1": p1 + off, "chrom2": c2, "pos2": p2 + off, "val": v} for (c1, p1, c2, p2, v) in pairs]
+        half = 0.5 if fc else 0
+        recs = [{"chrom1": c1, "pos1": p1 + off, "chrom2": c2, "pos2": p2 + off, "val": v + half} for (c1, p1, c2, p2, v) in pairs]
         write_table(tpath, recs, fields, layout, ncols, header="## pairs format v1.0\n#columns: see the command line\n" if spec.get("header") else None)
         args = ["cload", "pairs", "-c1", str(layout["chrom1"] + 1), "-p1", str(layout["pos1"] + 1),
                 "-c2", str(layout["chrom2"] + 1), "-p2", str(layout["pos2"] + 1)]
@@ -694,11 +726,13 @@ def pairs_job(spec):
         if not symm:
             args.append("-N")
         if wv:
-            args += ["--field", f"val={layout['val'] + 1}"]
+            args += ["--field", (f"count={layout['val'] + 1}:dtype=float" if fc else f"val={layout['val'] + 1}")]
         if cs:
             args += ["--chunksize", str(cs)]
         if spec.get("mergebuf"):
             args += ["--mergebuf", str(spec["mergebuf"])]
+        if spec.get("max_merge"):
+            args += ["--max-merge", str(spec["max_merge"])]
         case = dict(bintable=spec["tname"], symmetric_upper=symm, zero_based=zb, layout=layout, ncols=ncols, args=args + ["<bins>", "<pairs>", "<out>"])
         detail = dict(bins=rows, pairs_zero_based=pairs, text_head=open(tpath).read()[:300])
         res = CliRunner().invoke(cli, args + [bpath, tpath, opath])
@@ -712,23 +746,38 @@ def pairs_job(spec):
             if symm and b1 > b2:
                 b1, b2 = b2, b1
             n_, s_ = acc.get((b1, b2), (0, 0))
-            acc[(b1, b2)] = (n_ + 1, s_ + v)
-        exp = [(b1, b2, n_) + ((s_,) if wv else ()) for (b1, b2), (n_, s_) in sorted(acc.items())]
-        got, gb, mode = read_pixels_raw(opath, ("count", "val") if wv else ("count",))
+            acc[(b1, b2)] = (n_ + 1, s_ + v + half)
+        if fc:      # `count` is the (exact, x.5-valued) sum of the value column, stored as float
+            exp = [(b1, b2, float(s_)) for (b1, b2), (n_, s_) in sorted(acc.items())]
+            vcols = ("count",)
+        else:
+            exp = [(b1, b2, n_) + ((s_,) if wv else ()) for (b1, b2), (n_, s_) in sorted(acc.items())]
+            vcols = ("count", "val") if wv else ("count",)
+        with h5py.File(opath, "r") as h:
+            have = sorted(h["pixels"].keys())
+            ckind = h["pixels/count"].dtype.kind if "count" in h["pixels"] else None
+        if have != sorted(("bin1_id", "bin2_id") + vcols) or ckind != ("f" if fc else "i"):
+            out.append(rec(C, False, case, {"pixel columns": have, "count dtype kind": ckind},
+                           {"pixel columns": sorted(("bin1_id", "bin2_id") + vcols), "count dtype kind": "f" if fc else "i"}, True, sig, detail))
+            return out
+        got, gb, mode = read_pixels_raw(opath, vcols)
         good = got == exp and gb == [tuple(r) for r in rows] and mode == ("symmetric-upper" if symm else "square")
         out.append(rec(C, good, case, got[:30], exp[:30], True, sig, detail))
-        # the library's own pipeline on a correctly labelled frame
+        # the library's own pipeline on a correctly labelled frame (in memory, one chunk)
         if spec.get("libref"):
             from cooler.create import sanitize_records, aggregate_records
             df = pd.DataFrame(recs)[fields]
+            if fc:
+                df = df.rename(columns={"val": "count"})
             san = sanitize_records(bins_frame(rows, extra=False), schema="pairs", decode_chroms=True, is_one_based=not zb,
                                    tril_action="reflect" if symm else None, sort=True, validate=True)
-            agg = aggregate_records(agg={"val": "sum"} if wv else {}, count=True, sort=False)
+            agg = aggregate_records(agg={"count": "sum"} if fc else {"val": "sum"} if wv else {}, count=True, sort=False)
             ref = os.path.join(d, "ref.cool")
-            cooler.create_cooler(ref, bins_frame(rows, extra=False), [agg(san(df))], columns=(["val"] if wv else []) + ["count"],
-                                 symmetric_upper=symm, ordered=False, triucheck=False, dupcheck=False, boundscheck=False, ensure_sorted=False)
-            r_, _, _ = read_pixels_raw(ref, ("count", "val") if wv else ("count",))
-            out.append(rec("cload-pairs:==library-pipeline", got == r_, case, got[:30], r_[:30], True, f"cload-pairs:==library-pipeline:{kind}", detail))
+            cooler.create_cooler(ref, bins_frame(rows, extra=False), [agg(san(df))], columns=["count"] if fc else (["val"] if wv else []) + ["count"],
+                                 symmetric_upper=symm, ordered=False, triucheck=False, dupcheck=False, boundscheck=False, ensure_sorted=False,
+                                 **({"dtypes": {"count": np.float64}} if fc else {}))
+            r_, _, _ = read_pixels_raw(ref, vcols)
+            out.append(rec("cload-pairs:==library-pipeline", got == r_, case, got[:30], r_[:30], True, f"cload-pairs:==library-pipeline:{kind}{chunk}", detail))
     except Exception as e:
         out.append(crashed(C, dict(bintable=spec["tname"], layout=layout, zero_based=zb, symmetric_upper=symm), e, sig))
     finally:
@@ -825,38 +874,43 @@ def spec_kind(spec):
     return "+".join(sorted(set(ks)))
 
 
-def zoomify_checks(B, R, specs):
+def zoomify_checks(B, R, coolers):
+    """coolers: list of (binsize, chromsizes, [spec spellings]).  The documented stop of a progression is the resolution
+    at which the whole genome fits one 256 x 256 tile, ceil(genome_length / 256), INCLUSIVE; the levels actually written
+    to the .mcool are compared with an independent expansion of the spec."""
     C = "zoomify:spec-expands-to-documented-progression"
-    bs, sizes = 1000, {"c1": 3_000_000, "c2": 2_120_000}
-    rows = [(c, s, min(s + bs, L)) for c, L in sizes.items() for s in range(0, L, bs)]
-    nb = len(rows)
-    P = [(0, 0, 1), (1, 3, 2), (5, 7, 3), (100, nb - 1, 4), (2999, 3000, 5), (nb - 1, nb - 1, 6)]
-    src = B.path("z.cool")
-    cooler.create_cooler(src, bins_frame(rows, extra=False), pixel_frame(P), ordered=True)
-    maxres = int(math.ceil(sum(sizes.values()) / 256))
     runner = CliRunner()
-    for k, spec in enumerate(specs):
-        outp = B.path(f"z{k}.mcool")
-        args = ["zoomify", "-o", outp] + (["-r", spec] if spec is not None else []) + [src]
-        case = dict(spec=spec, binsize=bs, chromsizes=sizes, stop=maxres, args=["zoomify", "-o", "<out>"] + (["-r", spec] if spec is not None else []) + ["<cool>"])
-        sk = spec_kind(spec if spec is not None else "b")
-        sig = f"{C}:{sk}"
-        try:
-            exp = sorted(set(expand_spec(spec if spec is not None else "B", bs, maxres)) | {bs})
-            res = runner.invoke(cli, args)
-            if res.exit_code != 0:
-                R.record(rec(C, False, case, f"exit {res.exit_code}: {res.exception!r}", exp, True, sig))
-                continue
-            got = sorted(int(p.split("/")[-1]) for p in cooler.fileops.list_coolers(outp))
-            sums = {r: int(cooler.Cooler(f"{outp}::resolutions/{r}").pixels()["count"][:].sum()) for r in got}
-            sizes_ok = all(cooler.Cooler(f"{outp}::resolutions/{r}").binsize == r for r in got)
-            good = got == exp and sizes_ok and all(v == sum(p[2] for p in P) for v in sums.values())
-            R.record(rec(C, good, case, dict(resolutions=got, sums=sums), dict(resolutions=exp, sum=sum(p[2] for p in P)), True, sig))
-        except Exception as e:
-            R.record(crashed(C, case, e, sig))
-        finally:
-            if os.path.exists(outp):
-                os.remove(outp)
+    for ci, (bs, sizes, specs) in enumerate(coolers):
+        rows = [(c, s, min(s + bs, L)) for c, L in sizes.items() for s in range(0, L, bs)]
+        nb = len(rows)
+        n1 = sum(1 for r in rows if r[0] == rows[0][0])
+        P = sorted({(0, 0, 1), (1, 3, 2), (5, 7, 3), (100, nb - 1, 4), ((n1 - 1, n1, 5) if n1 < nb else (nb - 2, nb - 1, 5)), (nb - 1, nb - 1, 6)})
+        src = B.path(f"z{ci}.cool")
+        cooler.create_cooler(src, bins_frame(rows, extra=False), pixel_frame(P), ordered=True)
+        L = sum(sizes.values())
+        maxres = -(-L // 256)
+        for k, spec in enumerate(specs):
+            outp = B.path(f"z{ci}-{k}.mcool")
+            args = ["zoomify", "-o", outp] + (["-r", spec] if spec is not None else []) + [src]
+            case = dict(spec=spec, binsize=bs, chromsizes=sizes, stop=maxres, args=["zoomify", "-o", "<out>"] + (["-r", spec] if spec is not None else []) + ["<cool>"])
+            sk = spec_kind(spec if spec is not None else "b")
+            try:
+                exp = sorted(set(expand_spec(spec if spec is not None else "B", bs, maxres)) | {bs})
+                sig = f"{C}:{sk}" + (":top-level==ceil(L/256)" if maxres in exp and L % 256 else "")
+                res = runner.invoke(cli, args)
+                if res.exit_code != 0:
+                    R.record(rec(C, False, case, f"exit {res.exit_code}: {res.exception!r}", exp, True, sig))
+                    continue
+                got = sorted(int(p.split("/")[-1]) for p in cooler.fileops.list_coolers(outp))
+                sums = {r: int(cooler.Cooler(f"{outp}::resolutions/{r}").pixels()["count"][:].sum()) for r in got}
+                sizes_ok = all(cooler.Cooler(f"{outp}::resolutions/{r}").binsize == r for r in got)
+                good = got == exp and sizes_ok and all(v == sum(p[2] for p in P) for v in sums.values())
+                R.record(rec(C, good, case, dict(resolutions=got, sums=sums), dict(resolutions=exp, sum=sum(p[2] for p in P)), True, sig))
+            except Exception as e:
+                R.record(crashed(C, case, e, f"{C}:{sk}"))
+            finally:
+                if os.path.exists(outp):
+                    os.remove(outp)
     # posts of the progression generator itself
     C2 = "preferred_sequence:posts"
     for style in ("binary", "nice"):
@@ -873,11 +927,11 @@ def zoomify_checks(B, R, specs):
 
 
 # ---------------------------------------------------------------------------------- main
-def subsets(full):
+def subsets(full, upto=2):
     allf = [frozenset(c) for r in range(len(FLAGS) + 1) for c in itertools.combinations(FLAGS, r)]
     if full:
         return allf
-    return [s for s in allf if len(s) <= 2 or len(s) == len(FLAGS)]
+    return [s for s in allf if len(s) <= upto or len(s) == len(FLAGS)]
 
 
 def main():
@@ -893,6 +947,8 @@ def main():
     def pick(lst, k):
         """thorough: seeded sample; quick: a fixed, evenly strided selection (the quick scope is a fixed enumerated set)"""
         lst = list(lst)
+        if k <= 0:
+            return []
         if k >= len(lst):
             return lst
         if T:
@@ -913,24 +969,25 @@ def main():
         full = [(t, m, s) for t in tables for m in ("dense", "sparse-empty-row") for s in (True, False)]
         red = [(t, m, s) for t in tables for m in ("empty", "diagonal", "corners") for s in (True, False)]
     else:
-        full = [("variable", "dense", True), ("fixed10-short-last", "sparse-empty-row", False)]
-        red = [("fixed10-exact", "sparse-empty-row", True), ("variable", "corners", False), ("one-bin-chroms", "dense", True),
+        full = [("variable", "dense", True)]
+        mid = [("fixed10-short-last", "sparse-empty-row", False)]        # square: subsets of size <= 3 and the full set
+        red = [("variable", "corners", False), ("one-bin-chroms", "dense", True),
                ("single-chrom-fixed", "dense", False), ("fixed10-exact", "empty", True)]
     dump_specs = []
-    for which, lst in (("full", full), ("reduced", red)):
+    for which, lst in (("full", full), ("mid", [] if T else mid), ("reduced", red)):
         for t, m, s in lst:
             rows = tables[t]
             A = scope_matrices(len(rows))[m]
             regs = region_choices(rows, B.rng if T else None)
-            subs = subsets(which == "full")
+            subs = subsets(which == "full", 3 if which == "mid" else 1 if m == "empty" and not T else 2)
             runs = [(sorted(o), ri) for o in subs for ri in range(len(regs))]
             api = [(sorted(o), ri) for o in subs if o <= {"fill-lower", "balanced", "join"} and not ({"fill-lower", "join"} <= o and s)
                    for ri in range(len(regs))]
             chunked = [(sorted(o), ri, k) for o in (frozenset(), frozenset({"fill-lower"}), frozenset(FLAGS) - {"columns"})
-                       for ri in range(min(3, len(regs))) for k in ((1, 2, 3) if which == "full" or T else (2,))]
+                       for ri in range(min(3, len(regs))) for k in ((1, 2, 3) if which in ("full", "mid") or T else (2,))]
             dump_specs.append(dict(dir=jdir(), tname=t, mname=m, symm=s, bins=rows, pixels=stored_pixels(A.tolist(), s), regions=regs,
                                    ann=["tag"], runs=runs, api=api, chunked=chunked,
-                                   plain=[[], sorted(set(FLAGS) - {"columns"})] if which == "full" else [[]]))
+                                   plain=[[], sorted(set(FLAGS) - {"columns"})] if which in ("full", "mid") else [[]]))
     if T:   # random matrices / random option subsets / random chunk sizes, seeded
         for t in tables:
             rows = tables[t]
@@ -942,6 +999,7 @@ def main():
                 dump_specs.append(dict(dir=jdir(), tname=t, mname=f"random-seed{B.seed}", symm=s, bins=rows, pixels=stored_pixels(A.tolist(), s),
                                        regions=regs, ann=["tag"], runs=[(sorted(o), ri) for o in subs for ri in range(len(regs))], api=[],
                                        chunked=[(sorted(o), B.rng.randrange(len(regs)), B.rng.choice([1, 2, 3, 5])) for o in subs], plain=[]))
+    n_random = sum(1 for d_ in dump_specs if d_["mname"].startswith("random"))
     run_jobs(B, R, dump_job, dump_specs, T)
 
     # ------------------------------------------------------------ load (COO / BG2)
@@ -954,9 +1012,10 @@ def main():
     coo3, coo4 = COO_FIELDS, COO_FIELDS + ["val"]
     # (layout, ncols, names given by --field in this order); the default layout is also run without any --field
     coo_lay = [(dict(zip(coo3, range(3))), 3, [])]
-    coo_lay += [(l, 3, coo3) for l in placements(coo3, 3)] + [(l, 4, coo3) for l in placements(coo3, 4)]      # every placement in 3 and 4 columns
-    coo_lay += [(l, 4, coo4) for l in placements(coo4, 4)]                                                   # + supplementary value field, 4 columns
-    coo_lay += [(l, 4, list(reversed(coo4))) for l in placements(coo4, 4)[::5]]                              # names in another command-line order
+    coo_lay += [(l, 3, coo3) for l in placements(coo3, 3)]                                                   # every permutation of 3 columns
+    coo_lay += [(l, 4, coo3) for l in placements(coo3, 4)[::1 if T else 2]]                                  # placements in 4 columns (quick: every second)
+    coo_lay += [(l, 4, coo4) for l in placements(coo4, 4)[::1 if T else 3]]                                  # + supplementary value field (quick: every third)
+    coo_lay += [(l, 4, list(reversed(coo4))) for l in placements(coo4, 4)[1::5 if T else 8]]                 # names in another command-line order
     if T:
         coo_lay += [(l, 5, coo3) for l in placements(coo3, 5)] + [(l, 5, coo4) for l in placements(coo4, 5)]
         coo_lay += [(l, 5, [coo4[k] for k in B.rng.sample(range(4), 4)]) for l in B.rng.sample(placements(coo4, 5), 40)]
@@ -966,7 +1025,7 @@ def main():
     for c in (6, 7, 8):
         bg2_lay.append((dict(pos6, count=c), 9, ["count"]))
         for v in (6, 7, 8):
-            if v != c:
+            if v != c and (T or (c + v) % 2):
                 bg2_lay.append((dict(pos6, count=c, val=v), 9, ["count", "val"]))
                 bg2_lay.append((dict(pos6, count=c, val=v), 9, ["val", "count"]))
     n_valueonly = len(bg2_lay)
@@ -974,9 +1033,11 @@ def main():
     ident7 = list(range(7))
     perms = [tuple(ident7), tuple(reversed(ident7)), tuple(ident7[1:] + ident7[:1]), tuple(ident7[3:] + ident7[:3]),
              (1, 0, 2, 3, 4, 5, 6), (0, 1, 2, 3, 5, 4, 6), (3, 4, 5, 0, 1, 2, 6), (0, 2, 1, 3, 4, 5, 6)]
-    perms += pick(itertools.permutations(range(7)), 300 if T else 3)
+    if not T:
+        perms = perms[:5]
+    perms += pick(itertools.permutations(range(7)), 300 if T else 1)
     bg2_lay += [(dict(zip(BG2_FIELDS, p_)), 7, BG2_FIELDS) for p_ in dict.fromkeys(perms)]
-    bg2_lay += [(dict(zip(BG2_FIELDS, p_)), 9, BG2_FIELDS) for p_ in ((0, 1, 2, 3, 4, 5, 8), (1, 2, 3, 5, 6, 7, 8), (0, 2, 3, 4, 6, 7, 8))]   # ascending, moved
+    bg2_lay += [(dict(zip(BG2_FIELDS, p_)), 9, BG2_FIELDS) for p_ in ((0, 1, 2, 3, 4, 5, 8), (1, 2, 3, 5, 6, 7, 8), (0, 2, 3, 4, 6, 7, 8))[:3 if T else 1]]   # ascending, moved
     bg2_lay.append((dict(pos6, count=6), 7, ["start1", "count"]))
     for (t, m) in lt:
         rows = tables[t]
@@ -991,7 +1052,7 @@ def main():
                     if ((t, m) == lt[0] and (T or (s and ob == 0))) or (T and (t, m) == lt[1] and s and ob == 0):
                         use = lays
                     else:
-                        use = [lays[0]] + pick(lays[1:], 12 if T else 2)
+                        use = [lays[0]] + pick(lays[1:], 12 if T else 0 if ob else 1)
                     for k, (lay, nc, cf) in enumerate(use):
                         load_specs.append(dict(dir=jdir(), fmt=fmt, tname=t, mname=m, bins=rows, pixels=P, symm=s, one_based=ob, layout=lay, ncols=nc,
                                                cli_fields=cf, libref=(k % 8 == 0)))
@@ -1002,14 +1063,56 @@ def main():
                     moved = (dict(zip(coo3, (0, 1, 3))), 4, ["count"]) if fmt == "coo" else (dict(pos6, count=8), 9, ["count"])
                     sizes = {1, 2, 3, nrec + 1} if T else {1, 2, nrec + 1} if nrec <= 8 else {3, nrec + 1}
                     for cs in sorted(sizes):
-                        for lay, nc, cf in (lays[0], moved):
+                        for lay, nc, cf in ((lays[0], moved) if T or cs == min(sizes) else (lays[0],)):
                             load_specs.append(dict(dir=jdir(), fmt=fmt, tname=t, mname=m, bins=rows, pixels=P, symm=s, one_based=ob, layout=lay, ncols=nc,
-                                                   cli_fields=cf, chunksize=cs, mergebuf=1000, shuffle=sh, libref=(cs == 2)))
-                    load_specs.append(dict(dir=jdir(), fmt=fmt, tname=t, mname=m, bins=rows, pixels=P, symm=s, one_based=ob, layout=lays[0][0], ncols=lays[0][1],
-                                           cli_fields=[], chunksize=3, shuffle=sh))          # mergebuf left at its default (= chunksize)
+                                                   cli_fields=cf, chunksize=cs, shuffle=sh, libref=(cs == 2),
+                                                   **({"mergebuf": 1000} if cs == 3 else {})))      # mergebuf: default (= chunksize) and explicit
+    # non-integer counts (x.5) and more chunks than --max-merge (two merge passes): the stored values must be exactly the
+    # source values, whatever the chunk size and --max-merge; single-chunk and single-pass runs are the baseline
+    tables["fixed10-21bins"] = [("chrA", k * 10, k * 10 + 10) for k in range(21)]
+    lay0 = {"coo": (dict(zip(coo3, range(3))), 3), "bg2": (dict(pos6, count=6), 7)}
+    for ti, (t, m) in enumerate(lt[:2] if not T else lt):
+        rows = tables[t]
+        A = scope_matrices(len(rows))[m]
+        for s in (True, False):
+            P = stored_pixels(A.tolist(), s)
+            Pf = [(i, j, v + 0.5) for i, j, v in P]
+            nrec = len(P)
+            sh = shuffled(nrec)
+            for fmt in ("coo", "bg2"):
+                combos = [(1, 2, "flag"), (2, 3, "field"), (1, 3, "field"), (2, None, "flag"), (nrec + 1, None, "flag"), (1, 2, None), (3, 2, "flag")]
+                if not T:
+                    # quick: chunk sizes chosen so that there are 4..8 chunks (each chunk costs a temporary cooler), still more than --max-merge
+                    c5, c7, c4 = -(-nrec // 5), -(-nrec // 7), -(-nrec // 4)
+                    combos = [(c5, 2, "flag"), (c7, 3, "field"), (c4, None, "flag"), (nrec + 1, None, "flag"), (c5, 2, None)] if fmt == "coo" and s else \
+                             [(c5, 2, "flag"), (c7, 3, "field")] if fmt == "coo" or s else [(c5, 3, "flag")]
+                for k, (cs, mm, fc) in enumerate(combos):
+                    lay, nc = lay0[fmt]
+                    load_specs.append(dict(dir=jdir(), fmt=fmt, tname=t, mname=m, bins=rows, pixels=Pf if fc else P, symm=s, one_based=0, layout=lay, ncols=nc,
+                                           cli_fields=["count"] if fc == "field" else [], chunksize=cs, max_merge=mm, float_count=fc, shuffle=sh,
+                                           libref=(k == 0)))
+    # default --max-merge (200) exceeded: 231 records, one record per chunk
+    rows = tables["fixed10-21bins"]
+    P = stored_pixels(scope_matrices(21)["dense"].tolist(), True)
+    for fmt, fc in ((("coo", "flag"), ("bg2", "field"), ("coo", None)) if T else ()):      # ~8 s each: thorough tier only
+        load_specs.append(dict(dir=jdir(), fmt=fmt, tname="fixed10-21bins", mname="dense", bins=rows, pixels=[(i, j, v + 0.5) for i, j, v in P] if fc else P,
+                               symm=True, one_based=0, layout=lay0[fmt][0], ncols=lay0[fmt][1], cli_fields=["count"] if fc == "field" else [],
+                               chunksize=1, float_count=fc, shuffle=shuffled(len(P)), libref=True))
     run_jobs(B, R, load_job, load_specs, T)
     rt_specs = [dict(dir=jdir(), tname=t, mname=m, bins=tables[t], pixels=stored_pixels(scope_matrices(len(tables[t]))[m].tolist(), s), symm=s, fmt=fmt, one_based=ob)
-                for (t, m) in lt for s in (True, False) for fmt in ("coo", "bg2") for ob in (0, 1)]
+                for (t, m) in lt for s in (True, False) for fmt in ("coo", "bg2") for ob in (0, 1) if T or s or t != "width1"]
+    # `dump --fill-lower` of a symmetric cooler WITH diagonal pixels -> `load --input-copy-status duplex`: lower-triangle copies
+    # are dropped, the diagonal is kept; chunk sizes that mix lower-triangle, diagonal and upper records in one chunk
+    def rt(t, m, fmt, ob, cs, dk=None):
+        return dict(dir=jdir(), tname=t, mname=m, bins=tables[t], pixels=stored_pixels(scope_matrices(len(tables[t]))[m].tolist(), True), symm=True,
+                    fmt=fmt, one_based=ob, filled=True, chunksize=cs, dump_k=dk)
+    if T:
+        rt_specs += [rt(t, m, fmt, ob, cs, dk) for (t, m) in [("fixed10-short-last", "dense"), ("variable", "dense"), ("width1", "dense"), ("variable", "diagonal"),
+                                                             ("one-bin-chroms", "dense"), ("fixed-3chrom", "sparse-empty-row")]
+                     for fmt in ("coo", "bg2") for ob in (0, 1) for cs, dk in ((None, None), (1, None), (2, 2), (3, None), (5, 1), (7, None))]
+    else:
+        rt_specs += [rt("fixed10-short-last", "dense", "coo", 0, cs, dk) for cs, dk in ((None, None), (2, None), (4, 2), (7, None))]
+        rt_specs += [rt("fixed10-short-last", "dense", "bg2", 0, 5), rt("variable", "dense", "bg2", 1, 8, 2), rt("width1", "dense", "coo", 1, 6)]
     run_jobs(B, R, roundtrip_job, rt_specs, T)
 
     # ------------------------------------------------------------ cload pairs
@@ -1025,44 +1128,79 @@ def main():
                 if T:
                     lays += [(l, 5, True) for l in p5]                               # ... and of 5 columns with a value field
                 elif ti == 0 and s and not zb:
-                    lays += [(l, 5, True) for l in p5[::2]]                          # quick: every second one of the 120
+                    lays += [(l, 5, True) for l in p5[::5]]                          # quick: every fifth one of the 120
                 elif ti == 0:
-                    lays += [(l, 5, True) for l in pick(p5, 4)]
+                    if s == zb:          # quick: all 24 permutations in two of the four modes, a fixed selection of 8 in the other two
+                        lays = pick(lays, 8)
+                    lays += [(l, 5, True) for l in pick(p5, 3)]
                 if T and ti == 0 and s:
                     lays += [(l, 6, True) for l in B.rng.sample(placements(PAIR_FIELDS + ["val"], 6), 150)]
                 if ti > 0 and not T:
-                    lays = lays[:1] + pick(lays, 5)
+                    lays = lays[:1] + pick(lays, 2)
                 for k, (lay, nc, wv) in enumerate(lays):
                     pair_specs.append(dict(dir=jdir(), tname=t, bins=rows, pairs=pairs, symm=s, zero_based=zb, layout=lay, ncols=nc, with_value=wv,
                                            header=(k % 2 == 1), libref=(k < 2 or (wv and k % 40 == 0))))
-                if ti == 0 or T:
+                if (ti == 0 and s != zb) or T:
                     for cs in (1, 4, len(pairs) + 1):
                         for lay, nc, wv in ((lays[0][0], 4, False), (dict(zip(PAIR_FIELDS + ["val"], (0, 2, 3, 4, 5))), 6, True)):
                             pair_specs.append(dict(dir=jdir(), tname=t, bins=rows, pairs=pairs, symm=s, zero_based=zb, layout=lay, ncols=nc, with_value=wv,
-                                                   chunksize=cs, mergebuf=1000, header=False))
-                pair_specs.append(dict(dir=jdir(), tname=t, bins=rows, pairs=pairs, symm=s, zero_based=zb, layout=lays[0][0], ncols=4, with_value=False,
-                                       chunksize=1, header=False))          # mergebuf left at its default (= chunksize)
+                                                   chunksize=cs, header=False, **({"mergebuf": 1000} if cs == 4 else {})))
+                else:
+                    pair_specs.append(dict(dir=jdir(), tname=t, bins=rows, pairs=pairs, symm=s, zero_based=zb, layout=lays[0][0], ncols=4, with_value=False,
+                                           chunksize=1, header=False))
+        # a non-integer value column (x.5) summed into `count` (--field count=N:dtype=float) and more chunks than --max-merge:
+        # the result must be the in-memory aggregate, whatever the chunk size and --max-merge
+        lay5 = dict(zip(PAIR_FIELDS + ["val"], range(5)))
+        if ti < 2 or T:
+            for s in ((True, False) if ti == 0 or T else (True,)):
+                combos = [(1, 2, True), (2, 3, True), (4, None, True), (len(pairs) + 1, None, True), (1, 3, True), (1, 2, False), (2, 2, False)]
+                quick = [(2, 2, True), (2, 3, True), (4, None, True), (len(pairs) + 1, None, True), (1, 2, True), (2, 2, False)] if s and ti == 0 else \
+                        [(2, 2, True), (3, 2, True)] if s else [(2, 3, True), (3, 2, True)]
+                for k, (cs, mm, fc) in enumerate(combos if T else quick):
+                    pair_specs.append(dict(dir=jdir(), tname=t, bins=rows, pairs=pairs, symm=s, zero_based=False, layout=lay5, ncols=5, with_value=True,
+                                           chunksize=cs, max_merge=mm, float_count=fc, header=False, libref=(k == 0)))
+    # default --max-merge (200) exceeded: 210 lines, one line per chunk
+    rows = tables["fixed10-short-last"]
+    cl = [("chr1", 25), ("chr2", 17)]
+    many = [(cl[k % 2][0], (k * 7) % cl[k % 2][1], cl[(k // 2) % 2][0], (k * 3 + 1) % cl[(k // 2) % 2][1], k % 9) for k in range(210)]
+    for s, fc in (((True, True), (False, True), (True, False)) if T else ()):              # ~8 s each: thorough tier only
+        pair_specs.append(dict(dir=jdir(), tname="fixed10-short-last", bins=rows, pairs=many, symm=s, zero_based=False, layout=lay5, ncols=5, with_value=True,
+                               chunksize=1, float_count=fc, header=False, libref=True))
     run_jobs(B, R, pairs_job, pair_specs, T)
 
     # ------------------------------------------------------------ field params, zoomify specs
     field_param_checks(R)
-    zspecs = ["N", "B", "4DN", "2000N", "2000B", "5000", "n", "b", "4dn", "2000n", "2000b", "2000,5000N", "5000,2000B", " 2000N , 5000 ", None]
+    zspecs = ["N", "B", "4DN", "2000N", "2000B", "5000", "n", "2000,5000N", " 2000b , 5000 ", None]
     if T:
-        zspecs += ["1000N", "1000B", "3000B", "3000N", "4000,8000", "2000,4000b", "5000n,2000", "10000N", "16000B", "4DN,4000"]
-    zoomify_checks(B, R, zspecs)
+        zspecs += ["b", "4dn", "2000n", "2000b", "5000,2000B", " 2000N , 5000 ", "1000N", "1000B", "3000B", "3000N", "4000,8000", "2000,4000b", "5000n,2000", "10000N", "16000B", "4DN,4000"]
+    zcoolers = [(1000, {"c1": 3_000_000, "c2": 2_120_000}, zspecs),                      # L % 256 == 0, stop 20000
+                # genome lengths with L % 256 != 0 whose ceil(L/256) is itself a member of a progression (top level inclusive)
+                (10, {"c1": 12000, "c2": 8470}, ["B", "b", None, "20B", "40b", "N", "20N"]),   # L = 20470 -> stop 80 = 10*2^3 = 20*2^2 = 40*2
+                (10, {"c1": 15000, "c2": 10590}, ["N", "n", "20N", "50n", "B", "20B"]),        # L = 25590 -> stop 100 = 10*10 = 20*5 = 50*2
+                (10, {"c1": 5110}, ["N", "B"])]                                                # L = 5110  -> stop 20 = 10*2
+    if T:
+        zcoolers += [(1, {"c1": 1000, "c2": 1045}, ["B", "N", "2B", "4N"]),                    # L = 2045 -> stop 8 (binary) ...
+                     (5, {"c1": 6400, "c2": 6395}, ["B", "N", "10N", "25B"]),                  # L = 12795 -> stop 50 = 5*10 = 10*5 = 25*2
+                     (100, {"c1": 204700}, ["B", "200B", "N"])]                                # L = 204700 -> stop 800 = 100*2^3
+    zoomify_checks(B, R, zcoolers)
 
     nd = sum(len(s["runs"]) + len(s["chunked"]) for s in dump_specs)
-    B.bound = (f"dump: coolers drawn from {'8' if T else '5 small'} bin-table shapes x 5 matrices x symmetric/square: {len(full)} coolers x all 128 subsets of the 7 options x "
+    B.bound = (f"dump: coolers drawn from {'8' if T else '5 small'} bin-table shapes x 5 matrices x symmetric/square: {len(full)} coolers x all 128 subsets of the 7 options" + ("" if T else " and 1 square cooler x the subsets of size <=3 and the full set") + " x "
                f"{'5' if T else '3'} region choices (none, -r, -r + -r2{', 2 seeded random' if T else ''}); {len(red)} more coolers x the subsets of size <=2 and the full set; "
-               f"-k in {{1,2,3}} on 3 subsets; {nd} distinct command lines" + (f"; + {2 * len(tables)} random matrices x 24 random subsets" if T else "") + ". "
-               f"load: COO every placement of 3 fields in 3{', 4, 5' if T else ' and 4'} columns and of 4 fields (with a supplementary value field) in 4{' and 5' if T else ''} columns; "
-               f"BG2 value fields (count, val) at every position behind the positional columns in both command-line orders, and {len(dict.fromkeys(perms))} "
+               f"-k in {{1,2,3}} on 3 subsets; {nd} distinct command lines" + (f"; + {n_random} random matrices x 24 random subsets" if T else "") + ". "
+               f"load: COO every permutation of 3 fields in 3 columns, {'every placement in 4 and 5' if T else 'every second placement in 4'} columns and {'all' if T else 'every third'} of 4 fields (with a supplementary value field) in 4{' and 5' if T else ''} columns; "
+               f"BG2 value fields (count, val) at {'every position' if T else 'positions 7..9'} behind the positional columns in both command-line orders, and {len(dict.fromkeys(perms))} "
                f"{'(8 fixed + seeded sample)' if T else '(fixed selection)'} permutations of all 7 columns given by --field; x zero/one-based x symmetric/square on "
                f"{len(lt)} bin tables (all layouts on the first, a {'seeded sample' if T else 'fixed selection'} on the others); chunk sizes {{1,2,3,n+1}} on permuted input; "
-               f"real dump->load round trips COO/BG2 x zero/one-based x symmetric/square. "
-               f"cload pairs: all 24 permutations of the 4 positional columns x zero/one-based x symmetric/square, "
-               f"{'all 120' if T else 'every second of the 120'} permutations of 5 columns with a value field{', 150 sampled 5-of-6 placements' if T else ''}; chunk sizes {{1,4,n+1}}. "
-               f"zoomify -r: {len(zspecs)} spellings on a 5120-bin cooler; preferred_sequence on 31 starts x 9 stops x 2 styles; "
+               f"non-integer counts (x.5; --count-as-float / --field count=N:dtype=float) with {'chunksize in {1,2,3}' if T else '4..8 chunks'} x --max-merge in {{2,3}} (more chunks than "
+               f"max-merge: two merge passes) against single-chunk / single-pass baselines" + (", and 231 one-record chunks under the default --max-merge" if T else "") + "; "
+               f"real dump->load round trips COO/BG2 x zero/one-based x symmetric/square, and `dump --fill-lower` -> `load --input-copy-status duplex` of symmetric "
+               f"coolers with diagonal pixels for load chunk sizes {'{all,1,2,3,5,7}' if T else '{all,2,4,5,6,7,8}'} x dump -k. "
+               f"cload pairs: all 24 permutations of the 4 positional columns x {'zero/one-based x symmetric/square' if T else '(one-based symmetric, zero-based square; 8 in the other two modes)'}, "
+               f"{'all 120' if T else 'every fifth of the 120'} permutations of 5 columns with a value field{', 150 sampled 5-of-6 placements' if T else ''}; chunk sizes {{1,4,n+1}}; "
+               f"a x.5-valued column summed into count (--field count=N:dtype=float) with chunksize in {{1,2,3,4}} x --max-merge in {{2,3,default}}"
+               + (", and 210 one-line chunks under the default --max-merge" if T else "") + ". "
+               f"zoomify -r: {sum(len(z[2]) for z in zcoolers)} (cooler, spelling) runs on {len(zcoolers)} coolers incl. genome lengths with L % 256 != 0 whose ceil(L/256) is a progression member; preferred_sequence on 31 starts x 9 stops x 2 styles; "
                f"parse_field_param: 5 names x 11 number texts x 9 property strings")
     B.rule = ("case = (cooler, command line); one evaluation per contract (column group / row set / order / API agreement) per CLI run; "
               "non-trivial when the expected output has at least one row; distinct by (contract, case)")
